@@ -24,6 +24,13 @@ pub fn gen_c19(out: &mut Out, rng: &mut Rng, thorough: bool) {
     for fc in 0..=255u8 {
         monitor_line(out, &format!("reqfc CU:{}:-", hex8(fc)));
         monitor_line(out, &format!("rspfc CU:{}:-", hex8(fc)));
+        // … and through the real encoders of both transports, for every byte as a custom code
+        let n = rng.below(4);
+        let d = hex(&rng.bytes(n));
+        monitor_line(out, &format!("tcpreq 0000 00 CU:{}:{d}", hex8(fc)));
+        monitor_line(out, &format!("rtureq 01 CU:{}:{d}", hex8(fc)));
+        monitor_line(out, &format!("tcprsp 0000 00 R=CU:{}:{d}", hex8(fc)));
+        monitor_line(out, &format!("rtursp 01 R=CU:{}:{d}", hex8(fc)));
     }
     // every spelling of 0..=65535
     for n in 0..=65535u32 {
@@ -129,6 +136,23 @@ pub fn mon_c19(out: &mut Out, l: &str, r: &str) {
                 if let Some(Ok(rsp)) = p_response_result(q) {
                     let fc = rsp.function_code().value();
                     out.check(bytes.len() > 7 && bytes[7] == fc, || format!("first PDU byte differs from function_code() {fc:02X}: {r}"), l);
+                }
+            }
+        }
+        ["rtureq", _, q] => {
+            if let Some(h) = r.strip_prefix("ok ") {
+                let bytes = p_bytes(h).unwrap();
+                let req = p_request(q).unwrap();
+                let fc = req.function_code().value();
+                out.check(bytes.len() > 1 && bytes[1] == fc, || format!("first PDU byte differs from function_code() {fc:02X}: {r}"), l);
+            }
+        }
+        ["rtursp", _, q] => {
+            if let Some(h) = r.strip_prefix("ok ") {
+                let bytes = p_bytes(h).unwrap();
+                if let Some(Ok(rsp)) = p_response_result(q) {
+                    let fc = rsp.function_code().value();
+                    out.check(bytes.len() > 1 && bytes[1] == fc, || format!("first PDU byte differs from function_code() {fc:02X}: {r}"), l);
                 }
             }
         }
